@@ -8,6 +8,7 @@ import numpy as np
 
 from .. import gen as G
 from ..common import Invalid, UnexecutableGraph, Violation, fp, same_value, derive
+from ..preempt import PreemptSim
 from ..schedsim import Sim, POLICIES
 
 ID = "C10"
@@ -42,6 +43,12 @@ def gen(rng, tier):
             }
         )
     scheds[0] = {"policy": "fifo", "release": False, "copy_p": 0.0, "seed": 0}
+    # line-granular interleaving of 2-3 in-flight tasks (baton-passed threads); real locks would
+    # really block a pre-empted holder's rival, so programs using lock=True are left task-atomic
+    if not any(s_["op"] == "from_array" and s_["args"].get("lock") is True for s_ in recipe["steps"]):
+        for _ in range(1 if tier == "quick" else 6):
+            scheds.append({"policy": "preempt", "inflight": rng.choice([2, 3]), "yield_p": rng.choice([0.1, 0.3, 0.6]),
+                           "release": False, "copy_p": 0.0, "seed": rng.getrandbits(32)})
     return {
         "recipe": recipe,
         "targets": [target] + extra,
@@ -108,8 +115,14 @@ def execute(case, stats, log):
     stats["tasks"] = len(g)
 
     def run(s, monitor=True):
-        sim = Sim(random.Random(s["seed"]), policy=s["policy"], release=s["release"], copy_p=s["copy_p"],
-                  monitor_deps=monitor, prop=ID, stats=stats, decisions=s.get("decisions"))
+        if s["policy"] == "preempt":
+            sim = PreemptSim(random.Random(s["seed"]), inflight=s.get("inflight", 2), yield_p=s.get("yield_p", 0.3),
+                             monitor_deps=monitor, prop=ID, stats=stats)
+            sim.choice_points = 0
+            stats["fault.preempt_runs"] = stats.get("fault.preempt_runs", 0) + 1
+        else:
+            sim = Sim(random.Random(s["seed"]), policy=s["policy"], release=s["release"], copy_p=s["copy_p"],
+                      monitor_deps=monitor, prop=ID, stats=stats, decisions=s.get("decisions"))
         try:
             out = sim.run(g, keys)
         except Violation:
